@@ -154,9 +154,18 @@ def run(tier: str, seed: int, want: typing.Sequence[str] = ("W", "R", "A", "S"))
     t0 = time.perf_counter()
     try:
         it = pz.load_kernels()
-        nval, err = validate_translator(it, seed)
     except (pz.Unsupported, pz.Violation) as ex:
         return [{"name": "pz.translator", "status": "inconclusive: %s: %s" % (type(ex).__name__, ex), "time_s": 0.0}]
+    try:
+        nval, err = validate_translator(it, seed)
+    except (pz.Unsupported, pz.Violation) as ex:
+        nval, err = 0, None  # the encoding itself refuses / fails on a concrete input: the obligations below decide
+        _ = ex
+    except Exception as ex:  # pylint: disable=broad-except
+        # the REAL class raised on a concrete, well-formed sequence of operations (e.g. IndexError on truncated data)
+        return [{"name": "pz.translator-validation", "status": "violated", "time_s": round(time.perf_counter() - t0, 2),
+                 "obligation": "the real _BitWriter/_BitReader never raise on well-formed operation sequences",
+                 "model": {"exception": "%s: %s" % (type(ex).__name__, ex)}}]
     rec = {"name": "pz.translator-validation", "time_s": round(time.perf_counter() - t0, 2),
            "obligation": "%d concrete operations through the real _BitWriter/_BitReader and through the encoding agree" % nval}
     if err:
